@@ -177,3 +177,122 @@ Example quiescent_renewal_ok :
   known [CSend; SRecv; SWrite; CRecv; CRenew; SRecv; SWrite; CRecv; CSend; SRecv; SWrite; CRecv] = 0 /\
   run [CSend; SRecv; SWrite; CRecv; CRenew; SRecv; SWrite; CRecv; CSend; SRecv; SWrite; CRecv] = [4; 1; 4; 1; 4; 2; 4; 2; 4; 1; 4; 1].
 Proof. split; reflexivity. Qed.
+
+(* ---------- the known classes are exact, not over-approximations ---------- *)
+(* the server takes the next n frames from the client->server link *)
+Fixpoint srecv_n (n : nat) (s : st) : st :=
+  match n with O => s | S n' => srecv_n n' (fst (step s SRecv)) end.
+(* the client takes the next n frames from the server->client link *)
+Fixpoint crecv_n (n : nat) (s : st) : st :=
+  match n with O => s | S n' => crecv_n n' (fst (step s CRecv)) end.
+
+Lemma srecv_step s f r : c2s s = f :: r ->
+  c2s (fst (step s SRecv)) = r /\ se (fst (step s SRecv)) = se s + nopn [f] /\
+  ce (fst (step s SRecv)) = ce s.
+Proof.
+  intro H. cbn [step]. rewrite H. destruct f as [m| |]; [destruct (m =? se s)| |]; cbn; repeat split; lia.
+Qed.
+
+Lemma srecv_n_through l : forall s r, c2s s = l ++ r ->
+  c2s (srecv_n (length l) s) = r /\ se (srecv_n (length l) s) = se s + nopn l /\
+  ce (srecv_n (length l) s) = ce s.
+Proof.
+  induction l as [|f l IH]; intros s r H; cbn [length srecv_n app nopn] in *.
+  - repeat split; [exact H | lia].
+  - destruct (srecv_step s f (l ++ r) H) as (H1 & H2 & H3).
+    destruct (IH _ r H1) as (G1 & G2 & G3). repeat split; [exact G1 | | congruence].
+    rewrite G2, H2. cbn [nopn]. destruct f; lia.
+Qed.
+
+(* class 1 is exact: after any history outside the known classes, if the client secures a request
+   while its renew request is outstanding, the server -- whatever else happens on the other link --
+   holds the NEXT token when that request reaches it, and rejects it *)
+Theorem class1_always_rejected s : Inv s -> renewing s = true ->
+  let s1 := fst (step s CSend) in
+  let s2 := srecv_n (length (c2s s)) s1 in
+  se s2 = ce s + 1 /\ snd (step s2 SRecv) = 0.
+Proof.
+  intros (H1 & H2 & H3 & H4) Hr. cbv zeta. rewrite Hr in H4.
+  assert (E : c2s (fst (step s CSend)) = c2s s ++ [FMsg (ce s)]) by reflexivity.
+  destruct (srecv_n_through (c2s s) _ _ E) as (G1 & G2 & G3).
+  assert (Hse : se (srecv_n (length (c2s s)) (fst (step s CSend))) = ce s + 1).
+  { rewrite G2. cbn [step fst se]. lia. }
+  split; [exact Hse|].
+  remember (srecv_n (length (c2s s)) (fst (step s CSend))) as s2 eqn:Es2. clear Es2.
+  cbn [step]. rewrite G1, Hse.
+  destruct (Z.eqb_spec (ce s) (ce s + 1)); [lia | reflexivity].
+Qed.
+
+Lemma crecv_step s f r : s2c s = f :: r ->
+  s2c (fst (step s CRecv)) = r /\ ce (fst (step s CRecv)) = ce s + nopn [f].
+Proof.
+  intro H. cbn [step]. rewrite H. destruct f as [m| |]; cbn; repeat split; lia.
+Qed.
+
+Lemma crecv_n_through l : forall s r, s2c s = l ++ r ->
+  s2c (crecv_n (length l) s) = r /\ ce (crecv_n (length l) s) = ce s + nopn l.
+Proof.
+  induction l as [|f l IH]; intros s r H; cbn [length crecv_n app nopn] in *.
+  - split; [exact H | lia].
+  - destruct (crecv_step s f (l ++ r) H) as (H1 & H2).
+    destruct (IH _ r H1) as (G1 & G2). split; [exact G1|].
+    rewrite G2, H2. cbn [nopn]. destruct f; lia.
+Qed.
+
+(* class 2 is exact: if the server writes a response that is queued ahead of a renew response,
+   the client still holds the previous token when that response reaches it, and rejects it *)
+Theorem class2_always_rejected s r : Inv s -> sq s = RMsg :: r -> has_ropn r = true ->
+  let s1 := fst (step s SWrite) in
+  let s2 := crecv_n (length (s2c s)) s1 in
+  ce s2 < se s /\ snd (step s2 CRecv) = 0.
+Proof.
+  intros (H1 & H2 & H3 & H4) Hq Hh. cbv zeta.
+  assert (Hn : 1 <= nropn r).
+  { clear -Hh. induction r as [|[|] r IH]; cbn in *; [discriminate| |]; pose proof (nropn_nonneg r); try lia. apply IH. exact Hh. }
+  assert (E : s2c (fst (step s SWrite)) = s2c s ++ [FMsg (se s)]) by (cbn [step]; rewrite Hq; reflexivity).
+  assert (Ece : ce (fst (step s SWrite)) = ce s) by (cbn [step]; rewrite Hq; reflexivity).
+  destruct (crecv_n_through (s2c s) _ _ E) as (G1 & G2).
+  rewrite Hq in H3. cbn [nropn] in H3.
+  assert (Hlt : ce (crecv_n (length (s2c s)) (fst (step s SWrite))) < se s) by (rewrite G2, Ece; lia).
+  split; [exact Hlt|].
+  remember (crecv_n (length (s2c s)) (fst (step s SWrite))) as s2 eqn:Es2. clear Es2.
+  cbn [step]. rewrite G1.
+  destruct (Z.eqb_spec (se s) (ce s2)); [lia | reflexivity].
+Qed.
+
+Definition after (c : case) : st := fold_left (fun s o => fst (step s o)) c init.
+
+Lemma inv_after c : known c = 0 -> Inv (after c).
+Proof.
+  unfold known, after.
+  assert (G : forall s0, Inv s0 -> known_from s0 c = 0 -> Inv (fold_left (fun s o => fst (step s o)) c s0)).
+  { induction c as [|o c IH]; intros s0 Hs Hk; [exact Hs|].
+    cbn [known_from] in Hk. destruct (racy s0 o =? 0) eqn:Hr; [|apply Z.eqb_neq in Hr; lia].
+    apply Z.eqb_eq in Hr. cbn [fold_left]. apply IH; [apply (step_ok s0 o Hs Hr) | exact Hk]. }
+  intro Hk. exact (G init inv_init Hk).
+Qed.
+
+Theorem class1_exact c : known c = 0 -> renewing (after c) = true ->
+  let s := after c in
+  let s2 := srecv_n (length (c2s s)) (fst (step s CSend)) in
+  racy s CSend = 1 /\ se s2 = ce s + 1 /\ snd (step s2 SRecv) = 0.
+Proof.
+  intros Hk Hr. cbv zeta. split; [cbn [racy]; rewrite Hr; reflexivity|].
+  exact (class1_always_rejected (after c) (inv_after c Hk) Hr).
+Qed.
+
+Theorem class2_exact c r : known c = 0 -> sq (after c) = RMsg :: r -> has_ropn r = true ->
+  let s := after c in
+  let s2 := crecv_n (length (s2c s)) (fst (step s SWrite)) in
+  racy s SWrite = 2 /\ ce s2 < se s /\ snd (step s2 CRecv) = 0.
+Proof.
+  intros Hk Hq Hh. cbv zeta. split; [cbn [racy]; rewrite Hq, Hh; reflexivity|].
+  exact (class2_always_rejected (after c) r (inv_after c Hk) Hq Hh).
+Qed.
+
+Example class1_exact_nonvacuous :
+  known [CSend; SRecv; CRenew] = 0 /\ renewing (after [CSend; SRecv; CRenew]) = true.
+Proof. split; reflexivity. Qed.
+Example class2_exact_nonvacuous :
+  known [CSend; SRecv; CRenew; SRecv] = 0 /\ sq (after [CSend; SRecv; CRenew; SRecv]) = [RMsg; ROpn].
+Proof. split; reflexivity. Qed.
